@@ -11,6 +11,7 @@ pub mod c11;
 pub mod c12;
 pub mod c13;
 pub mod c14;
+pub mod c15;
 pub mod c16;
 pub mod c17;
 pub mod c18;
@@ -35,6 +36,8 @@ pub fn run(ctx: &mut Ctx, id: &str) -> bool {
         "C12" => c12::run(ctx),
         "C13" => c13::run(ctx),
         "C14" => c14::run(ctx),
+        "C15" => c15::run_c15(ctx),
+        "C20" => c15::run_c20(ctx),
         "C16" => c16::run(ctx),
         "C17" => c17::run(ctx),
         "C18" => c18::run(ctx),
@@ -60,6 +63,8 @@ pub fn replay(ctx: &Ctx, id: &str, label: &str, case: Value) -> Result<(), Strin
         "C12" => c12::replay(ctx, label, case),
         "C13" => c13::replay(ctx, label, case),
         "C14" => c14::replay(ctx, label, case),
+        "C15" => c15::replay_c15(ctx, label, case),
+        "C20" => c15::replay_c20(ctx, label, case),
         "C16" => c16::replay(ctx, label, case),
         "C17" => c17::replay(ctx, label, case),
         "C18" => c18::replay(ctx, label, case),
